@@ -54,6 +54,8 @@ EXTRA_BASE = [   # matrix-valued functions not in the C15 catalogue
     cat.E('base.isskew', [('SK3',)]), cat.E('base.isskewa', [('SKA3',)]), cat.E('base.iseye', [('R3',)]),
     cat.E('base.trexp', [('SK3',)]), cat.E('base.trexp', [('SKA3',)]), cat.E('base.transl', [('T3',)]), cat.E('base.transl2', [('T2',)]),
     cat.E('base.trprint', [('T3',)], {'file': ('NONE',)}), cat.E('base.trprint2', [('T2',)], {'file': ('NONE',)}),
+    cat.E('m:SE3.printline', [], {'file': ('NONE',)}, recv=('OBJM', 'SE3')), cat.E('m:SE2.printline', [], {'file': ('NONE',)}, recv=('OBJM', 'SE2')),
+    cat.E('m:SE3.printline', [], {'file': ('NONE',), 'orient': ('LIT', 'eul')}, recv=('OBJ', 'SE3')),
     cat.E('base.angdiff', [cat.V(None)]), cat.E('base.angdiff', [cat.V(3), cat.V(3)]), cat.E('base.removesmall', [('T3',)]),
     cat.E('base.det', [('R3',)]),
     # planar counterparts and the matrix assemblers
@@ -251,6 +253,8 @@ def operand_for(rng, c, name):
         return [0, -1, slice(0, 1)]
     outs.append(make_recv(rng, c, 1))
     outs.append(2.5)
+    if hasattr(getattr(sm, c), 'Empty'):
+        outs.append(getattr(sm, c).Empty())        # an operand holding no value (what an accumulator starts as)
     if c in ('SO3', 'SE3', 'UnitQuaternion'):
         outs += [gen.vec(rng, 3, 1e-1, 1e1), gen.vec(rng, 9, 1e-1, 1e1).reshape(3, 3)]
     if c in ('SO2', 'SE2'):
@@ -396,6 +400,22 @@ def run_member(ctx, p):
         opd = type(a[0]).__name__ if a else '-'
         ctx.judge('args_unchanged', w is None, dict(sig, kind='receiver_or_operand_modified', operand=opd, where=(w or '').split('.')[1] if w else None),
                   lambda: '%s.%s(%s) on a %d-valued receiver modified %s (%s)' % (c, name, core.short(a, 200), m, w, 'raised %r' % raised if raised else 'returned'))
+        # a result that is a NEW list-like object belongs to the caller: a documented list mutation of it acts "on its receiver"
+        # only, so the receiver and operands of the call that produced it must still be unchanged afterwards
+        # (a call that hands back the receiver or an operand itself is a different matter and is not judged here)
+        if w is None and raised is None and isinstance(getattr(out1, 'data', None), list) and hasattr(out1, 'clear') \
+                and out1 is not x and not any(out1 is o for o in a):
+            n1 = len(out1.data)
+            try:
+                out1.reverse()
+                out1.clear()
+                w2 = diff_where(before, snapshot((x, a)))
+            except Exception as e3:
+                w2 = 'list mutation of the result raised %r' % e3
+            ctx.judge('args_unchanged', w2 is None, dict(sig, kind='operand_modified_through_result', operand=opd),
+                      lambda: '%s.%s(%s) returned a new %s of %d value(s); reverse() / clear() on that result modified %s' % (
+                          c, name, core.short(a, 200), type(out1).__name__, n1, w2))
+            ctx.cell('result_isolated', c, name, min(n1, 2))
     ctx.cell('member', c, name, m)
     ctx.nontrivial('member', c, name, m)
 
